@@ -5,7 +5,8 @@
 (*   {op:"example",  schema, env, opt, bytes, value, parsed}          C15                    *)
 (*   {op:"regex_example", re, example}                                C18                    *)
 (*   {op:"lenunit", c, oks}                                           C02 (unit of lengths)  *)
-EXTENDS Integers, Sequences, TLC, Json, Sem
+(*   {op:"check", schema, env, opt, ok}                               C04 / C08 (differential tier) *)
+EXTENDS Integers, Sequences, TLC, Json, Chk
 CONSTANT TraceFile
 J == INSTANCE JsonText WITH MaxDepth <- 100000
 Trace == ndJsonDeserialize(TraceFile)
@@ -26,8 +27,25 @@ ExampleOf(n) ==
     [] n.t = "arr" -> [t |-> "arr", items |-> [i \in DOMAIN n.items |-> ExampleOf(n.items[i])]]
     [] n.t = "obj" -> [t |-> "obj", ps |-> [i \in DOMAIN n.props |-> [k |-> n.props[i].k, v |-> ExampleOf(n.props[i].n)]]]
 
+\* the whole schema through Chk!Structure, node by node (type shortcuts: no verdict)
+NodeKind(n) == CASE n.t = "lit" -> (IF n.v.t = "num" THEN (IF KindOfValue(n.v) = "int" THEN "int" ELSE "flt") ELSE n.v.t)
+                 [] n.t = "obj" -> (IF n.props = <<>> THEN "obj0" ELSE "obj1")
+                 [] n.t = "arr" -> (IF n.items = <<>> THEN "arr0" ELSE "arr2")
+                 [] OTHER -> "ref"
+RECURSIVE SchemaStructure(_, _)
+SchemaStructure(n, pos) ==
+  IF n.t = "ref" THEN "unspec"
+  ELSE And3({Structure(NodeKind(n), pos, n.rules)}
+            \cup (IF n.t = "obj" THEN {SchemaStructure(n.props[i].n, "prop") : i \in DOMAIN n.props} ELSE {})
+            \cup (IF n.t = "arr" THEN {SchemaStructure(n.items[i], "elem") : i \in DOMAIN n.items} ELSE {}))
+CheckProblem(e) ==
+  LET st == SchemaStructure(e.schema, "root")
+      ex == IF IsPlain(e.schema) THEN Verdict(e.env, e.schema, ExampleOf(e.schema), e.opt) ELSE "unspec" IN
+  IF e.ok THEN (IF st = "reject" THEN "check-accepts-a-rule-misuse" ELSE IF ex = "reject" THEN "check-accepts-a-violating-example" ELSE "ok")
+  ELSE IF st = "accept" /\ ex = "accept" /\ e.env.types = <<>> THEN "check-rejects-a-sound-schema" ELSE "ok"
 Problem(e) ==
-  CASE e.op = "validate" ->
+  CASE e.op = "check" -> CheckProblem(e)
+    [] e.op = "validate" ->
          LET v == Verdict(e.env, e.schema, e.doc, e.opt) IN
          IF v = "unspec" \/ (e.ok <=> v = "accept") THEN "ok" ELSE "verdict:" \o v
     [] e.op = "lenunit" ->              \* oks[k+1] : does {minLength: k, maxLength: k} accept the string c ?  exactly at its length, in ONE unit
